@@ -1,12 +1,50 @@
 #!/usr/bin/env python3
 """Generates /verif/MANIFEST.json from the table below (kept in one place so it is always schema-valid)."""
 import json, sys
+T_E1 = "explicit-state prefix-trie exploration of the real parser with schedule merging (all chunk schedules), one-shot differential oracle"
+T_E4 = "exhaustive bounded enumeration of inputs on the real functions against a reference model / by-construction oracle"
+def C(level, text, note, technique, ref): return dict(level=level, text=text, note=note, technique=technique, ref=ref)
+MC = "model_checking"
 CLAIMED = {
- "C02": dict(level="model_checking",
-   text="Exhaustive: every chunk schedule of every input in byte tries (per-parser structural alphabets, depth 5-8 quick / 6-10 thorough) and fragment tries is executed on the real sub-parsers via schedule merging (all suspended states reachable at each prefix are resumed to every longer prefix) and compared with a fresh one-shot call on the same prefix; start offsets, flag sets and capacities enumerated.",
-   note="Bounded input length/alphabet; the state key covers every (also unexported) leaf field so merged states have equal futures; buffers <= 65535 bytes.",
-   technique="explicit-state prefix-trie exploration of the real parsers with schedule merging (all chunk schedules), one-shot differential oracle",
-   ref="DESIGN.md §2.2, §3 C02"),
+ "C01": C(MC, "Every chunk schedule of every message in the fragment tries (first line x header lines x blank x body, a node at every byte; long fixed messages) is executed on the real ParseSIPMsg: each distinct suspended state reachable at a prefix is resumed to every longer prefix and compared (verdict, offset, all caller-visible values when definitive) with a fresh one-shot parse; flags, capacities, start offset and no-more-data-on-final-call enumerated.",
+   "Inputs bounded by the menus; deeper tries use a reduced configuration set; full-state key (incl. unexported fields) justifies merging equal states.", T_E1, "DESIGN.md 2.2, 3/C01"),
+ "C02": C(MC, "Same exploration for every exported incremental sub-parser (name-addr in 6 header kinds, contact/PAI lists, CSeq, Call-ID, uint/CLen/Expires, first line, header line, header block, token param incl. list loop, URI param/header lists, SkipQuoted) over byte tries on per-parser structural alphabets and fragment tries; flag sets, capacities, start offsets enumerated; input-end flag as final-call variant.",
+   "Bounded trie depth/alphabet per space (listed in the evidence); buffers <= 65535 bytes.", T_E1, "DESIGN.md 2.2, 3/C02"),
+ "C03": C(MC, "For every trie node of the C01/C02 spaces whose one-shot verdict is definitive, the one-shot result on every child prefix and on 17 adversarial continuations must be identical (verdict, offset, values); documented exemptions encoded (end-of-input flags not run; body extent of a message without Content-Length).",
+   "Extensions beyond the trie bound are only the probe continuations; look-ahead of the parsers is <= 3 bytes (14 for the first line, covered by prefixed tries).", "explicit-state enumeration of (buffer, extension) pairs on the real parsers, stability oracle", "DESIGN.md 3/C03"),
+ "C04": C(MC, "Sanity oracle (no panic, offset inside buffer and not before the passed offset unless error, every exported field dereferenceable, GetMsgSig/String on every reached message object) on every call of every schedule over hostile byte tries (structural bytes + NUL 0x7f 0x80 0xff), the full 256-value alphabet at depth 2-3, <=1 (x256) / <=2 (structural) byte substitutions into well-formed messages; exhaustive enumeration of the non-parsing entry points (lookups on all names of length 0..3, URI parse/compare/relocate, param/header list comparison, IP and signature helpers, String methods); all interleavings at API-call granularity of every pair/triple of independent sessions compared with solo transcripts.",
+   "Isolation under true parallel execution is argued from the absence of package-level state written after init (checked by the interleaving exploration only at call granularity, see DESIGN.md 3/C04 and Limits).", "explicit-state exploration (E1 with sanity oracle) + exhaustive enumeration + interleaving enumeration", "DESIGN.md 3/C04"),
+ "C05": C(MC, "Every successfully parsed message of the C01 menus (<= 2 header lines), the long messages and a product of repeated Contact/PAI/From headers with 1-3 values, under 5 configurations: containment, order, nesting of every reported field against line extents computed by an independent tokenizer; body and raw-message extents.",
+   "One-shot parses (all schedules equal one-shot by C01); messages from the menus only.", T_E4, "DESIGN.md 3/C05"),
+ "C06": C(MC, "Full product header-block shape x declared length x available bytes x 8 flags x blank form x offset against the framing table of the statement; every sequence of 1..3 (4 thorough) pipelined menu messages parsed back to back with Reset/Init/new object and compared with each message parsed alone at the same offset.",
+   "Reference table transcribed from the property statement; menu of 6 pipeline messages.", T_E4+" + bounded operation sequences (pipelines)", "DESIGN.md 3/C06"),
+ "C07": C(MC, "Generated well-formed header blocks (73 names x ws-before-colon x 13 value forms x 3 terminators; 1-2 lines from the full menu, 3-4 from reduced menus, 60-line blocks; capacities 0,1,N-1,N,N+1,nil) through ParseHeaders; N, flags, stored name/value/type, first-of-type by construction; generator cross-checked by an independent tokenizer on every block.",
+   "Value sub-parsers are exercised only for generic header kinds here (their grammar is C09/C10).", T_E4, "DESIGN.md 3/C07"),
+ "C08": C(MC, "Product method x URI x version x terminator request lines, all 1000 status codes x reasons x version casings x terminators, near-miss lines (never success), through ParseFLine and ParseSIPMsg; expectations by construction.", "Token menus listed in mc/c08.go.", T_E4, "DESIGN.md 3/C08"),
+ "C09": C(MC, "Generated name-addr values (display x URI x bracket form x ordered parameter lists of 0-3 x LWS at every legal gap with <= 2 non-empty gaps) and lists of 1-3 values in 1-2 headers through ParseNameAddrPVal (6 header kinds) and ParseHeaders (From/To/Contact/PAI, capacities): every reported field, counts, expires summary, first/last contact by construction.",
+   "Name/Params compared after trimming trailing LWS (documented leniency); MinExpires asserted only when all values carry expires.", T_E4, "DESIGN.md 3/C09"),
+ "C10": C(MC, "Every digit string of the bounded families (all <= 5/7 digits, windows around 2^16..2^64 and multiples, leading zeros, lengths to 40; all q strings <= 6 over 0159.) in every numeric position (CSeq, Content-Length, Expires, contact expires/q, URI port in 4 shapes, status) compared with math/big; every chunk schedule of boundary values via the E1 explorer.",
+   "Digit-string families as listed; positions as listed.", T_E4+" + E1 schedules for boundary values", "DESIGN.md 3/C10"),
+ "C11": C(MC, "Every input (all prefixes) of the message menus and of each sub-parser's C02 space parsed at offset 0 and at k in {1,2,3,255,256,257,32767,32768,65535-len-1,65535-len} behind six kinds of junk (thorough: every k for every 40th input): verdict equal, offset and every non-empty field shifted by exactly k, other values equal.",
+   "Input sets larger than the per-space cap are strided deterministically (reported, exhaustive=false); URI relocation is C18.", T_E4, "DESIGN.md 3/C11"),
+ "C12": C(MC, "Explicit-state BFS over histories of one reused object per object type: transitions = one call on every prefix of every menu input followed by Reset/Init, from every distinct post-reset state (full-state key incl. caller arrays); a post-reset state equal to the pristine state closes the search (all history lengths covered); every other state is compared with a new object on every menu input one-shot and at every single cut.",
+   "Menus of 4-9 inputs per object type; caps on states/depth reported when hit.", "explicit-state BFS with state hashing over operation histories of the real objects", "DESIGN.md 2.3, 3/C12"),
+ "C13": C(MC, "Messages built from combinations of up to 4 (6 thorough) header lines incl. 3 Contact headers / 5 values, 2 PAI headers / 4 values, repeated From: header capacity -1..N+1 x contact capacity -1..6, one-shot plus single cuts, compared with the ample-capacity parse (verdict, offset, counts, flags, shortcuts, values, summaries, first/last contact, signature; stored = prefix; More iff dropped); URI param/header lists x capacity -1..P+1 x every cut.",
+   "Quick tier takes every 5th message combination (stated in evidence).", T_E4, "DESIGN.md 3/C13"),
+ "C14": C(MC, "Every string of length <= 8 (9 thorough) over a 1 : @ ; ? & = [ ] . after sip:/sips: (and shorter after tel: and case variants) through ParseURI against the decomposition oracle (ordered, disjoint, exact delimiters, concatenation reproduces input, ';' '?' before '@' inside user/pass, brackets kept, consumed = len, tel number in user; rejected: error offset inside input).",
+   "Alphabet and length bound as stated.", T_E4, "DESIGN.md 3/C14"),
+ "C15": C(MC, "All ordered pairs of a generated URI family (500 quick / 2000 thorough: bases by stride over the component product, re-cased/permuted variants, one-component-different variants) x all 64 skip-flag values through URICmp/URICmpShort/URIParseCmp/URIRawCmp/URIParamsEq/URIHdrsEq: reflexive, symmetric, result matrix constant on invariance classes, user/pass case-sensitive, user/ttl/method/maddr rule, flag monotonicity, entry points agree incl. handed-back URIs.",
+   "Family drawn from component menus with duplicate-free parameter/header lists (as the property requires).", T_E4, "DESIGN.md 3/C15"),
+ "C16": C(MC, "GetHdrType/GetMethodNo on every byte string of length 0..3 over all 256 values, all 2^letters case variants of every table name, every one-edit neighbour (insert/substitute over 256 values, delete, transpose) against a map reference; ParseHdrLine's type for token-legal names; method name round trip.",
+   "Longer random names are represented by structured variants only.", T_E4, "DESIGN.md 3/C16"),
+ "C17": C(MC, "Generated parameter lists (0-2 items quick / 3 thorough from 25 item forms, LWS at every legal gap with <= 2 non-empty, empty items, leading/trailing separators) x 25 modes (separator x terminator x URI-param/URI-hdr x entry point incl. the list wrappers): items, intermediate and final verdict/offset, counts, types by construction; all 256 byte values in name and value positions per mode; GetViaBrSig depends only on the first branch value.",
+   "PTokParam.All only required to cover name and value inside the item; zero-item lists asserted for end-of-header/end-of-input only.", T_E4, "DESIGN.md 3/C17"),
+ "C18": C(MC, "Every accepted URI of the bounded space (length <= 5/6 after the scheme, plus the C15 family) x source offset {0,9} x target offsets {0,1,7,255,256,limit} x every span 0..len+3 through AdjustOffs (thorough: every target offset for 100 URIs), plus Long/Short/Flat/Truncate.",
+   "Known finding: tel: URIs written with userinfo (see known_findings.json).", T_E4, "DESIGN.md 3/C18"),
+ "C19": C(MC, "Generated requests (4 methods x all 256 subsets of the 8 fingerprinted headers x orderings x long/compact forms) with fillers in every gap, changed filler values, later repetition of each fingerprinted header, every header capacity 0..N+1 and single cuts: signature by construction and equal to the base variant; replies (incl. status 000), truncation, length and rendering rules.",
+   "From-tag class signature is checked metamorphically; all schedules follow from C01.", T_E4, "DESIGN.md 3/C19"),
+ "C20": C(MC, "Every string over 1 2 5 6 . x up to length 10 (12 thorough) and over 1 . x up to 16 (18), plus (near-)valid addresses embedded in all surroundings of up to 5 (6) bytes from 1 9 . x, through IP4Prefix / ContainsIP4 / GetCallIDSig against a brute-force substring reference and a reference prefix scanner.",
+   "Alphabet and length bound as stated.", T_E4, "DESIGN.md 3/C20"),
 }
 TODO = {}
 props = [json.loads(l) for l in open('/verif/properties.jsonl')]
